@@ -24,16 +24,67 @@ CACHE = os.path.join(VERIF, '.cache')
 OTHER_UNIVERSES = ('nodefault', 'rta')
 
 
-def run_rules(pid, mod, fact, repo, positive, tier='quick'):
-    facts = Facts(fact)
+def _run_once(pid, mod, facts, repo, positive, tier):
     c = Ctx(pid, facts, tier, 0)
     c.repo = repo
     c.positive = positive
     for rule in mod.RULES:
+        n0 = len(c.obligations)
         try:
             rule(c)
         except Skip:
             pass
+        for o in c.obligations[n0:]:
+            o['fn'] = rule.__name__
+    return c
+
+
+def merge_runs(a, b):
+    """Two sound analyses of the same program (plain bodies / bodies with new helper functions inlined). Every rule
+    function is a self-contained check of some clauses and is sound on either representation, so per rule function the
+    run with fewer violated obligations is reported (ties: the plain run)."""
+    fns = []
+    for o in a.obligations + b.obligations:
+        if o.get('fn') not in fns:
+            fns.append(o.get('fn'))
+    out = []
+    picked = {}
+    for fn in fns:
+        oa = [o for o in a.obligations if o.get('fn') == fn]
+        ob = [o for o in b.obligations if o.get('fn') == fn]
+        bad_a = {o['key'] for o in oa if not o['ok']}
+        bad_b = {o['key'] for o in ob if not o['ok']}
+        ok_a = {o['key'] for o in oa if o['ok']} - bad_a
+        ok_b = {o['key'] for o in ob if o['ok']} - bad_b
+        # four sound verdicts for the clauses of this rule function: either run as it is, or a run minus the
+        # obligations the other run proves (same key = same clause at the same site)
+        cands = [('plain', oa, bad_a)]
+        if ob:
+            cands.append(('inlined', ob, bad_b))
+            cands.append(('plain minus proven by inlined', [o for o in oa if o['ok'] or o['key'] not in ok_b], bad_a - ok_b))
+            cands.append(('inlined minus proven by plain', [o for o in ob if o['ok'] or o['key'] not in ok_a], bad_b - ok_a))
+        if not oa and ob:
+            cands = cands[1:2]
+        name, obs, bad = min(cands, key=lambda c: len(c[2]))
+        out += obs
+        picked[fn] = name
+    a.obligations = out
+    a.bodies |= b.bodies
+    a.notes.append('shape normalisation: %d body/bodies had new (unknown) helper functions inlined for a second run; per rule '
+                   'function the run with fewer violations is reported (both are sound analyses of the same program): %s'
+                   % (len(b.facts.inlined_bodies), picked))
+    a.extra['inlined'] = b.facts.inlined_bodies
+    return a
+
+
+def run_rules(pid, mod, fact, repo, positive, tier='quick'):
+    facts = Facts(fact)
+    c = _run_once(pid, mod, facts, repo, positive, tier)
+    if any(not o['ok'] for o in c.obligations) and facts.unknown_functions():
+        f2 = Facts(fact, inline=True)
+        c2 = _run_once(pid, mod, f2, repo, positive, tier)
+        if f2.inlined_bodies:
+            c = merge_runs(c, c2)
     return c
 
 
